@@ -3,7 +3,7 @@
 # Runs the given checks (default: the seeded property's check) against a scratch copy of /repo with the
 # seeded patch applied, using a private copy of the lean project, and prints the outcome. Nothing in
 # /repo or /verif/lean is touched; the scratch directory is removed afterwards.
-ID=$1; shift; P0=${ID%%-*}; P0=${P0%b}; PROPS=${@:-${P0%c}}
+ID=$1; shift; PROPS=${@:-${ID:0:3}}
 S=/var/tmp/segno-seedrun/$ID; rm -rf $S; mkdir -p $S
 cp -r /repo $S/repo; rm -rf $S/repo/.git
 (cd $S/repo && patch -p1 -s < /verif/seeded/$ID/patch.diff) || { echo "$ID PATCH-FAILED"; rm -rf $S; exit 0; }
